@@ -618,7 +618,7 @@ pub fn run(r: &Report) -> Vec<BuiltMulti> {
         .fold(
             || (Stats::default(), Vec::<([u8; 32], usize)>::new()),
             |(mut st, mut imgs), (i, (li, p))| {
-                if r.over_budget_frac(0.35) {
+                if r.over_budget_frac(0.55) {
                     capped.store(true, std::sync::atomic::Ordering::Relaxed);
                     st.count("mseg.crash_points_skipped_by_cap", 1);
                     return (st, imgs);
